@@ -330,6 +330,50 @@ theorem srcCopies_keeps (rd : Nat → Cell) : ∀ (l : List Src) (h : Heap), Bou
     rw [hcs]
     exact ⟨k1.trans k2, by simp only [cntCells_cons]; omega⟩
 
+theorem tmpMap_keeps (f : Nat) (rd : Nat → Cell) : ∀ (m : List (Str × Src)) (h : Heap) (acc : List (Str × Cell)) (h' : Heap)
+    (acc' : List (Str × Cell)) (x : Nat), tmpMap f rd h m acc = some (h', acc') → Bounded h → x < h.next →
+    (∀ q ∈ m, ∀ w ∈ q.2.vars, cellCnt (rd w) x = 0) → cntCells (acc.map (·.2)) x = 0 → stored h.heap h.next x = 0 →
+    Keeps h h' x ∧ cntCells (acc'.map (·.2)) x = 0 := by
+  intro m
+  induction m with
+  | nil =>
+    intro h acc h' acc' x r hb _ _ ha hs
+    simp only [tmpMap, Option.some.injEq, Prod.mk.injEq] at r
+    obtain ⟨e1, e2⟩ := r
+    subst e1 e2
+    exact ⟨Keeps.refl hb hs, ha⟩
+  | cons q t ih =>
+    obtain ⟨k, src⟩ := q
+    intro h acc h' acc' x r hb hx hsv ha hs
+    obtain ⟨k1, c1⟩ := srcCopy_keeps rd h hb src x hx (hsv (k, src) (by simp)) hs
+    simp only [tmpMap] at r
+    have hx1 : x < (srcCopy rd h src).1.next := by have := k1.mono; omega
+    have hst : ∀ q ∈ t, ∀ w ∈ q.2.vars, cellCnt (rd w) x = 0 := fun q hq => hsv q (by simp [hq])
+    cases hg : mapGet acc k with
+    | some old =>
+      rw [hg] at r
+      simp only at r
+      have hold : cellCnt old x = 0 := by
+        have := cellCnt_le_of_mem _ old x (mem_cells_of_getCell (.map acc) (.mk k) old hg)
+        simp only [Pay.cells] at this; omega
+      cases hr : release f (srcCopy rd h src).1 old with
+      | none => rw [hr] at r; cases r
+      | some h2 =>
+        rw [hr] at r
+        simp only at r
+        have k2 := release_keeps f _ old h2 x hr k1.bnd hold k1.unst
+        have hacc1 : cntCells ((mapPut acc k (srcCopy rd h src).2).map (·.2)) x = 0 := by
+          have := cnt_mapPut acc k (srcCopy rd h src).2 old x hg; omega
+        obtain ⟨k3, c3⟩ := ih h2 _ h' acc' x r k2.bnd (by have := k2.mono; omega) hst hacc1 k2.unst
+        exact ⟨(k1.trans k2).trans k3, c3⟩
+    | none =>
+      rw [hg] at r
+      simp only at r
+      have hacc1 : cntCells ((acc ++ [(k, (srcCopy rd h src).2)]).map (·.2)) x = 0 := by
+        simp only [List.map_append, List.map_cons, List.map_nil, cntCells_append, cntCells_cons, cntCells_nil]; omega
+      obtain ⟨k3, c3⟩ := ih _ _ h' acc' x r k1.bnd hx1 hst hacc1 k1.unst
+      exact ⟨k1.trans k3, c3⟩
+
 theorem setBoxedCell_keeps (f : Nat) (h : Heap) (c : Cell) (p : Pay) (h' : Heap) (c' : Cell) (x : Nat)
     (r : setBoxedCell f h c p = some (h', c')) (hb : Bounded h) (hx : x < h.next) (hc : cellCnt c x = 0)
     (hp : cntCells p.cells x = 0) (hs : stored h.heap h.next x = 0) : Keeps h h' x ∧ cellCnt c' x = 0 := by
@@ -508,7 +552,31 @@ theorem leafOp_keeps (f : Nat) (ds : DblSem) (rd : Nat → Cell) (h : Heap) (c :
           obtain ⟨e1, e2⟩ := r
           subst e1 e2
           exact ⟨(k1.trans k2).trans (releaseAll_keeps f _ s2 h3 x hr k2.bnd c1 k2.unst), cc2⟩
-    | map m => exact absurd hsup (by simp [LeafSupS])
+    | map m =>
+      simp only [leafOp, tmpPay] at r
+      cases htm : tmpMap f rd h m [] with
+      | none => rw [htm] at r; cases r
+      | some q =>
+        obtain ⟨s1, tmp⟩ := q
+        rw [htm] at r
+        simp only [Option.map] at r
+        obtain ⟨k1, c1⟩ := tmpMap_keeps f rd m h [] s1 tmp x htm hb hx
+          (fun q hq w hw => hsrc w (by simp only [LeafS.vars, ValS.vars, List.mem_flatMap]; exact ⟨q, hq, hw⟩)) rfl hs
+        cases hsb : setBoxedCell f s1 c (.map tmp) with
+        | none => rw [hsb] at r; cases r
+        | some q2 =>
+          obtain ⟨s2, c2⟩ := q2
+          rw [hsb] at r
+          simp only at r
+          obtain ⟨k2, cc2⟩ := setBoxedCell_keeps f _ c _ s2 c2 x hsb k1.bnd (by have := k1.mono; omega) hc c1 k1.unst
+          cases hr : releaseAll f s2 (Pay.map tmp).cells with
+          | none => rw [hr] at r; cases r
+          | some h3 =>
+            rw [hr] at r
+            simp only [Option.map, Option.some.injEq, Prod.mk.injEq] at r
+            obtain ⟨e1, e2⟩ := r
+            subst e1 e2
+            exact ⟨(k1.trans k2).trans (releaseAll_keeps f _ s2 h3 x hr k2.bnd c1 k2.unst), cc2⟩
   | clear =>
     simp only [leafOp] at r
     cases hr : release f h c with
